@@ -507,6 +507,34 @@ class Q:
             return res, sol.reason_unknown()
         return res, None
 
+    def crosscheck(self, r, expected, timeout_s=30):
+        """second solver: the system z3 4.8.12 binary on the exported SMT-LIB2 text of the same query.
+        -> 'agree' | 'disagree:<verdict>' | 'inconclusive:<why>'"""
+        import os
+        import subprocess
+        import tempfile
+
+        text = self.smt2(r)
+        fd, path = tempfile.mkstemp(prefix="jasmverif_", suffix=".smt2")
+        try:
+            with os.fdopen(fd, "w") as f:
+                f.write(text)
+                if "(check-sat)" not in text:
+                    f.write("\n(check-sat)\n")
+            try:
+                p = subprocess.run(["/usr/bin/z3", f"-T:{timeout_s}", path], capture_output=True, text=True, timeout=timeout_s + 30)
+            except (subprocess.TimeoutExpired, FileNotFoundError) as e:
+                return f"inconclusive:{type(e).__name__}"
+            out = p.stdout.strip().splitlines()
+            if any("(error" in l for l in out):
+                return "inconclusive:error " + " ".join(out)[:120]
+            verdict = out[0].strip() if out else "none"
+            if verdict not in ("sat", "unsat"):
+                return f"inconclusive:{verdict}"
+            return "agree" if verdict == expected else f"disagree:{verdict}"
+        finally:
+            os.unlink(path)
+
     def smt2(self, r):
         s = z3.String("s")
         sol = z3.Solver()
@@ -546,3 +574,32 @@ def ncomp(r, cap=48):
     if len(bs) == 1:
         return comp(r)
     return z3.Intersect(*[comp(b) for b in bs])
+
+
+# ------------------------------------------------------------------ random member of a (look-ahead free) regex
+def sample(n, rnd, alphabet=PRINTABLE, star_max=3):
+    """a random string matched by the parsed regex n (used to draw grammar members for differential validation)"""
+    k = n[0]
+    if k == "lit":
+        return n[1]
+    if k == "str":
+        return n[1]
+    if k == "cls":
+        codes = [c for c in alphabet if any(a <= c <= b for a, b in n[2]) != n[1]]
+        return chr(rnd.choice(codes))
+    if k == "set":
+        return chr(rnd.choice([c for c in n[1] if c in alphabet]))
+    if k == "cat":
+        return "".join(sample(x, rnd, alphabet, star_max) for x in n[1])
+    if k == "alt":
+        return sample(rnd.choice(n[1]), rnd, alphabet, star_max)
+    if k == "grp":
+        return sample(n[1], rnd, alphabet, star_max)
+    if k == "cap":
+        return sample(n[2], rnd, alphabet, star_max)
+    if k in ("rep", "prep"):
+        lo, hi = n[2], n[3]
+        if hi is None or hi > lo + star_max + 2:
+            hi = lo + star_max
+        return "".join(sample(n[1], rnd, alphabet, star_max) for _ in range(rnd.randint(lo, hi)))
+    raise Unsupported(f"sample: {k}")
